@@ -129,14 +129,18 @@ def _ctor_flags(fn, cls="COO", allowed_kw=("shape", "has_duplicates", "sorted", 
 
 
 def _first_guard(fn):
-    """name of the fill guard called as the first effective statement (after docstring / imports)"""
+    """name of the fill guard called before anything else happens (after the docstring, imports and
+    the conversion `a = as_coo(a)`)"""
     for s in fn.body:
         if isinstance(s, ast.Expr) and isinstance(s.value, ast.Constant):
             continue
         if isinstance(s, (ast.Import, ast.ImportFrom)):
             continue
+        if isinstance(s, ast.Assign) and ast.unparse(s) in ("a = as_coo(a)",):
+            continue
         if isinstance(s, ast.Expr) and isinstance(s.value, ast.Call) and isinstance(s.value.func, ast.Name) \
-                and s.value.func.id in ("check_consistent_fill_value", "check_zero_fill_value"):
+                and s.value.func.id in ("check_consistent_fill_value", "check_zero_fill_value") \
+                and len(s.value.args) == 1 and ast.unparse(s.value.args[0]) in ("arrays", "x", "a"):
             return s.value.func.id
         return None
     return None
@@ -292,7 +296,8 @@ def _sec_tri(coo_tree, fname):
     if [a.arg for a in fn.args.args] != ["x", "k"]:
         raise SiteError(f"{fname}: parameters changed")
     out.append(_tr_expr(f"site_{fname}_keep", _assign_value(fn, "mask"), ["row", "col", "k"],
-                        {"x.coords[-2]": "Ok row", "x.coords[-1]": "Ok col"}, f"{COO_COMMON}:{fname} mask"))
+                        {"x.coords[-2].astype(np.int64)": "Ok row", "x.coords[-1].astype(np.int64)": "Ok col"},
+                        f"{COO_COMMON}:{fname} mask"))
     out.append(_tr_stmts(f"site_{fname}_ndim_guard", [_ndim_guard(fn)], ["ndim"], {"x.ndim": "Ok ndim"},
                          f"{COO_COMMON}:{fname} guard"))
     for line in ("coords = x.coords[:, mask]", "data = x.data[mask]"):
@@ -340,17 +345,20 @@ def _sec_diagonal(coo_tree):
         raise SiteError("diagonal: diag_axes shape changed")
     out.append(_tr_expr("site_diagonal_other_axis", da.left.generators[0].ifs[0], ["axis", "axis1", "axis2"], {},
                         f"{COO_COMMON}:diagonal diag_axes condition"))
-    augs = [s for s in fn.body if isinstance(s, ast.AugAssign)]
-    if not (len(augs) == 1 and ast.unparse(augs[0].target) == "diag_shape[-1]" and isinstance(augs[0].op, ast.Sub)):
-        raise SiteError("diagonal: `diag_shape[-1] -= ...` changed")
-    synth = ast.BinOp(left=ast.Name(id="last", ctx=ast.Load()), op=ast.Sub(), right=augs[0].value)
-    out.append(_tr_expr("site_diagonal_last_extent", synth, ["last", "offset"], {},
-                        f"{COO_COMMON}:diagonal `diag_shape[-1] -= ...` as last - (...)"))
+    last = _assign_value(fn, "diag_shape[-1]")
+    out.append(_tr_expr("site_diagonal_last_extent", last, ["last", "offset"], {"diag_shape[-1]": "Ok last"},
+                        f"{COO_COMMON}:diagonal `diag_shape[-1] = ...`"))
+    pa = _assign_value(fn, "pos_axes")
+    if not (isinstance(pa, ast.BinOp) and isinstance(pa.op, ast.Add) and ast.unparse(pa.left) == "diag_axes[:-1]"
+            and isinstance(pa.right, ast.List) and len(pa.right.elts) == 1):
+        raise SiteError("diagonal: pos_axes shape changed")
+    out.append(_tr_expr("site_diagonal_pos_axis", pa.right.elts[0], ["axis1", "axis2", "offset"], {},
+                        f"{COO_COMMON}:diagonal last entry of pos_axes"))
     for line in ("diag_shape = [a.shape[axis] for axis in diag_axes]",
                  "diag_idx = _diagonal_idx(a.coords, axis1, axis2, offset)",
-                 "diag_coords = [a.coords[axis][diag_idx] for axis in diag_axes]",
+                 "diag_coords = [a.coords[axis][diag_idx] for axis in pos_axes]",
                  "diag_data = a.data[diag_idx]",
-                 "return COO(diag_coords, diag_data, diag_shape)"):
+                 "return COO(diag_coords, diag_data, diag_shape, fill_value=a.fill_value)"):
         _require_line(fn, line)
     return out, {}
 
